@@ -764,6 +764,8 @@ def plans_C15(g, tier):
     for name, fn in (('c01', plans_C01), ('c03', plans_C03), ('c04', plans_C04), ('c05', plans_C05), ('c06', plans_C06), ('c07', plans_C07), ('c13', plans_C13)):
         for p in fn(g, t):
             q = dict(p); q['name'] = name + '_' + p['name']; q['mask'] = mask; q['dm'] = p['dm'] + deeper if name not in ('c05', 'c06') else p['dm']
+            if tier == 'quick' and name in ('c06', 'c07'):
+                q['dm'] = p['dm'] - 1   # the two largest source alphabets one level shallower in the quick tier (their own checks run them at full quick depth)
             plans.append(q)
     # two-parameter overload: expectations that match one position and miss the other; WITH failing after parameters fit
     pre = []
